@@ -139,7 +139,7 @@ def spec_label(sd):
 
 
 def srv_label(srv):
-    return "srv%d%s%s" % (srv["max"], "+hrr" if srv["hrr"] else "", "+cookie%d" % srv["cookie"] if srv.get("cookie") else "") + ("+nonce%d" % srv["nonce"] if srv.get("nonce") else "")
+    return "srv%d%s%s" % (srv["max"], "+hrr" if srv["hrr"] else "", "+cookie%d" % srv["cookie"] if srv.get("cookie") else "") + ("+nonce%d" % srv["nonce"] if srv.get("nonce") else "") + ("+suite%x" % srv["suite13"] if srv.get("suite13") else "")
 
 
 def first_failure(ev):
